@@ -47,7 +47,7 @@ META = {
     "design_ref": "DESIGN.md section 3, C31",
 }
 
-SHAPES = ["fixed", "fixedgen", "stream", "stream", "chunked", "empty", "empty0"]
+SHAPES = ["fixed", "fixedgen", "stream", "stream", "chunked", "empty", "empty0", "overlong"]
 NOLEN = ("stream", "chunked", "empty")
 
 piece = st.one_of(st.binary(min_size=1, max_size=12), st.binary(min_size=1, max_size=90),
@@ -61,7 +61,7 @@ req_st = st.fixed_dictionaries({
     "status": st.sampled_from(["200 OK", "200 OK", "201 Created", "404 Not Found", "204 No Content", "304 Not Modified"]),
 }).map(lambda r: dict(r, shape=(r["shape"] if r["shape"] in ("empty", "empty0") else "empty"))
        if r["status"][:3] in ("204", "304") else r      # 204 / 304 carry no body (with or without Content-Length: 0)
-       ).map(lambda r: dict(r, shape=("fixed" if r["shape"] in ("fixed", "fixedgen", "stream", "chunked") else "empty0"))
+       ).map(lambda r: dict(r, shape=("fixed" if r["shape"] in ("fixed", "fixedgen", "stream", "chunked", "overlong") else "empty0"))
              if r["method"] == "HEAD" else r)    # the reply to a HEAD: head only, Content-Length of the would-be body or 0
 sched_list = st.one_of(st.just([]), st.lists(st.sampled_from([0, 0, 1, 2, 3, 5, 8, 13, 64, 1000]), min_size=1, max_size=6))
 sched_st = st.fixed_dictionaries({"a_send": sched_list, "a_recv": sched_list, "b_send": sched_list, "b_recv": sched_list})
@@ -79,7 +79,15 @@ def expected(i, r):
     if r["shape"] in ("empty", "empty0") or r["method"] == "HEAD":
         return int(r["status"][:3]), b""
     body = head + (r["reqbody"] if r["method"] not in ("GET", "HEAD") else b"") + b";" + b"".join(r["pieces"])
+    if r["shape"] == "overlong":
+        # the application yields more than the Content-Length it declared (the surplus lies in its last piece): the
+        # response is delimited by the declared length, the surplus is never sent
+        body = body[:len(body) - _surplus(r)]
     return int(r["status"][:3]), body
+
+
+def _surplus(r):
+    return 1 + len(r["pieces"][-1]) // 2
 
 
 def make_app(reqs, calls):
@@ -106,6 +114,9 @@ def make_app(reqs, calls):
         if shape == "fixed":
             start_response(r["status"], hs + [("Content-Length", str(total))])
             return [b"".join(parts[:2])] + parts[2:]
+        if shape == "overlong":
+            start_response(r["status"], hs + [("Content-Length", str(total - _surplus(r)))])
+            return iter(parts)
         if shape == "chunked":
             start_response(r["status"], hs)
             return parts
